@@ -271,7 +271,8 @@ Definition probe_step (s : st) : R :=
                             getm "retryCounter" s; VInt (Z.of_nat (List.length (stack s)));
                             VStr (current_pipe s); VList watch])).
 
-(** the fail step: raises [err](msg) when [when] is absent or true *)
+(** the fail step: raises [err](msg) when [when] is absent or true; with [cached: k] the error is
+    a pre-built object raised again by every failure *)
 Definition fail_step (s : st) : R :=
   match sget "vfail" (ctx s) with
   | Some (VDict c) =>
@@ -279,8 +280,16 @@ Definition fail_step (s : st) : R :=
       if b then
         match sget "err" c, sget "msg" c with
         | Some (VStr e), Some m =>
-            lift (fmt s m) s (fun m' =>
-            match m' with VStr ms => raise_new e ms s | _ => (OUnsup, s) end)
+            match sget "cached" c with
+            | None =>
+                lift (fmt s m) s (fun m' =>
+                match m' with VStr ms => raise_new e ms s | _ => (OUnsup, s) end)
+            | Some (VInt k) =>
+                (* ONE pre-built exception object per k (identity -k-1, never a fresh one),
+                   message as given: every failure raises that same object again *)
+                match m with VStr ms => (ORaise (RExn e ms (- k - 1)), s) | _ => (OUnsup, s) end
+            | Some _ => (OUnsup, s)
+            end
         | _, _ => (OUnsup, s)
         end
       else (OOk, s))
